@@ -2091,6 +2091,7 @@ func (l *Loader) loadByContext(ctx context.Context, source DataSource, fetchItem
 	}
 
 	if shared {
+		verifYield("subgraph.follower.beforeWait", int64(item.SFKey), 0)
 		select {
 		case <-item.loaded:
 		case <-ctx.Done():
